@@ -12,7 +12,7 @@ import (
 func init() {
 	Register(&Property{
 		ID:    "C44",
-		Floor: 45,
+		Floor: 85,
 		Clauses: "webdav memFS, structural necessary conditions: Mkdir/OpenFile/RemoveAll/Rename/Stat hold fs.mu (balanced, deferred unlock) around find and every children-map access, find/walk are called only from them, children maps are written only by Mkdir/OpenFile/RemoveAll/Rename; " +
 			"memFile Read/Readdir/Seek/Write and memFSNode.stat hold n.mu around data/pos/modTime accesses and are the only writers of pos/data; " +
 			"Rename: both names slashCleaned before the equality test, the subtree test HasPrefix(new, old+\"/\"), the root tests (find's parent == nil for either name) and the missing-source test all precede any mutation and any nil return; the node inserted under (new parent, new frag) is the one looked up under (old parent, old frag), which is deleted; " +
@@ -33,7 +33,7 @@ func c44Find(c *Ctx, fnName string, idx int) string {
 	}
 	for _, in := range Calls("(*webdav.memFS).find").F(c.P, fn) {
 		call := in.(*ssa.Call)
-		if a := call.Call.Args[2]; IsParam(fn, idx)(a) || DependsOn(a, IsParam(fn, idx)) {
+		if a := call.Call.Args[2]; WdIsParam(fn, idx)(a) || DependsOn(a, WdIsParam(fn, idx)) {
 			return Term(call)
 		}
 	}
@@ -48,7 +48,7 @@ func c44(c *Ctx) {
 	mu := []LockOp{{Callee: lock, Kind: "acq"}, {Callee: unlock, Kind: "rel"}}
 	find := F + "find"
 	osc := func(name string) int64 {
-		v, ok := c.P.ImportedConst("webdav", "os", name)
+		v, ok := c.P.WdImportedConst("webdav", "os", name)
 		if !ok {
 			c.Undecided("anchor", "os."+name, "constant not found")
 		}
@@ -67,7 +67,7 @@ func c44(c *Ctx) {
 	}
 	c.Callers(find, names...)
 	c.Callers(F+"walk", find)
-	c.MapWriters(children, F+"Mkdir", F+"OpenFile", F+"RemoveAll", F+"Rename")
+	c.WdMapWriters(children, F+"Mkdir", F+"OpenFile", F+"RemoveAll", F+"Rename")
 
 	// ---- n.mu discipline
 	data, pos := "webdav.memFSNode.data", "webdav.memFile.pos"
@@ -83,12 +83,12 @@ func c44(c *Ctx) {
 
 	// ---- Rename
 	rn := F + "Rename"
-	effects := Union(RetOKAny(), MapWrites(children))
+	effects := Union(WdRetOKAny(), WdMapWrites(children))
 	eq := "slashClean($1) == slashClean($2)"
-	c.Reject(rn, MapWrites(children), eq) // renaming onto itself changes nothing
+	c.Reject(rn, WdMapWrites(children), eq) // renaming onto itself changes nothing
 	c.Reject(rn, Union(effects, Calls(find)), "slashClean($1) != slashClean($2)", `HasPrefix(slashClean($2),(slashClean($1)+"/"))`)
 	if fo, fnw := c44Find(c, rn, 1), c44Find(c, rn, 2); fo != "" && fnw != "" {
-		mut := MapWrites(children)
+		mut := WdMapWrites(children)
 		c.Check(strings.Contains(fo, "slashClean($1)") && strings.Contains(fnw, "slashClean($2)"), "derives-from", rn+": find is given the cleaned names", c.MustFn(rn).Pos(), "", "find called with "+fo+" / "+fnw)
 		c.Reject(rn, effects, "slashClean($1) != slashClean($2)", fo+"#2 != nil")
 		c.Reject(rn, effects, "slashClean($1) != slashClean($2)", fnw+"#2 != nil")
@@ -103,51 +103,51 @@ func c44(c *Ctx) {
 			return ok && Term(m.Map) == fnw+"#0.children" && Term(m.Key) == fnw+"#1" && Term(m.Value) == src+"#0"
 		}))
 		c.PassThrough(rn, Calls("builtin:delete"), mut.Where("insert", func(in ssa.Instruction) bool { _, ok := in.(*ssa.MapUpdate); return ok }))
-		c.GuardAny_webdav(rn, RetOKAny(), []string{eq}, []string{src + "#1"})
+		c.WdGuardAny(rn, WdRetOKAny(), []string{eq}, []string{src + "#1"})
 	}
 
 	// ---- RemoveAll
 	rm := F + "RemoveAll"
 	if f := c44Find(c, rm, 1); f != "" {
-		eff := Union(RetOKAny(), MapWrites(children))
+		eff := Union(WdRetOKAny(), WdMapWrites(children))
 		c.Reject(rm, eff, f+"#2 != nil")
 		c.Reject(rm, eff, f+"#0 == nil") // the root
 		c.Has(rm, Calls("builtin:delete").ArgIs(0, f+"#0.children").ArgIs(1, f+"#1"))
-		c.Count(rm, MapWrites(children), 1, 1)
+		c.Count(rm, WdMapWrites(children), 1, 1)
 		c.CallAfterIncl(rm, c.Edge(f+"#0 != nil"), "builtin:delete")
 	}
 
 	// ---- Mkdir
 	mk := F + "Mkdir"
 	if f := c44Find(c, mk, 1); f != "" {
-		eff := Union(RetOKAny(), MapWrites(children))
+		eff := Union(WdRetOKAny(), WdMapWrites(children))
 		c.Reject(mk, eff, f+"#2 != nil")
 		c.Reject(mk, eff, f+"#0 == nil") // the root exists already
 		c.Reject(mk, eff, f+"#0.children["+f+"#1]#1")
-		c.Has(mk, MapWrites(children).Where("insert under (parent, frag)", func(in ssa.Instruction) bool {
+		c.Has(mk, WdMapWrites(children).Where("insert under (parent, frag)", func(in ssa.Instruction) bool {
 			m, ok := in.(*ssa.MapUpdate)
 			return ok && Term(m.Map) == f+"#0.children" && Term(m.Key) == f+"#1"
 		}))
-		c.Count(mk, MapWrites(children), 1, 1)
+		c.Count(mk, WdMapWrites(children), 1, 1)
 		modeDir := osc("ModeDir")
 		c.Has(mk, Stores("webdav.memFSNode.mode").StoredIs(fmt.Sprintf("(Perm($2)|%d)", modeDir)))
 		c.Has(mk, Stores(children).StoredIs("makemap"))
-		c.PassThroughIncl(mk, c.Edge("!"+f+"#0.children["+f+"#1]#1"), MapWrites(children))
+		c.PassThroughIncl(mk, c.Edge("!"+f+"#0.children["+f+"#1]#1"), WdMapWrites(children))
 	}
 
 	// ---- OpenFile
 	of := F + "OpenFile"
 	if f := c44Find(c, of, 1); f != "" {
 		ent := f + "#0.children[" + f + "#1]"
-		c.Reject(of, RetOKAny(), f+"#2 != nil")
-		c.Reject(of, RetOKAny(), f+"#0 == nil", fmt.Sprintf("($2&%d) != 0", oWr))
-		c.Reject(of, RetOKAny(), f+"#0 != nil", fmt.Sprintf("($2&%d) != 0", oCreate), fmt.Sprintf("($2&%d) != 0", oExcl), ent+" != nil")
-		c.Guard(of, MapWrites(children), f+"#0 != nil", fmt.Sprintf("($2&%d) != 0", oCreate), ent+" == nil")
-		c.Has(of, MapWrites(children).Where("insert under (parent, frag)", func(in ssa.Instruction) bool {
+		c.Reject(of, WdRetOKAny(), f+"#2 != nil")
+		c.Reject(of, WdRetOKAny(), f+"#0 == nil", fmt.Sprintf("($2&%d) != 0", oWr))
+		c.Reject(of, WdRetOKAny(), f+"#0 != nil", fmt.Sprintf("($2&%d) != 0", oCreate), fmt.Sprintf("($2&%d) != 0", oExcl), ent+" != nil")
+		c.Guard(of, WdMapWrites(children), f+"#0 != nil", fmt.Sprintf("($2&%d) != 0", oCreate), ent+" == nil")
+		c.Has(of, WdMapWrites(children).Where("insert under (parent, frag)", func(in ssa.Instruction) bool {
 			m, ok := in.(*ssa.MapUpdate)
 			return ok && Term(m.Map) == f+"#0.children" && Term(m.Key) == f+"#1"
 		}))
-		c.PassThrough(of, Stores("webdav.memFSNode.mode"), MapWrites(children)) // the node created for a missing entry is linked
+		c.PassThrough(of, Stores("webdav.memFSNode.mode"), WdMapWrites(children)) // the node created for a missing entry is linked
 		// missing entry without O_CREATE: the (possibly just created) node is nil-tested before success
 		fn := c.MustFn(of)
 		fromEntry := func(v ssa.Value) bool {
@@ -155,20 +155,20 @@ func c44(c *Ctx) {
 		}
 		isNil := func(v ssa.Value) bool { k, ok := v.(*ssa.Const); return ok && k.Value == nil }
 		var tests []ssa.Instruction
-		for _, ifi := range CmpBranches(fn, fromEntry, isNil) {
-			eqb, _ := EqEdge(ifi)
+		for _, ifi := range WdCmpBranches(fn, fromEntry, isNil) {
+			eqb, _ := WdEqEdge(ifi)
 			bad := false
-			for _, r := range RetOKAny().F(c.P, fn) {
-				if BlockReaches(eqb, r) {
+			for _, r := range WdRetOKAny().F(c.P, fn) {
+				if WdBlockReaches(eqb, r) {
 					bad = true
 				}
 			}
-			if x, _ := CmpOperands(ifi); !bad && isPhiValue(x) {
+			if x, _ := WdCmpOperands(ifi); !bad && c44IsPhi(x) {
 				tests = append(tests, ifi)
 			}
 		}
 		if c.Check(len(tests) > 0, "reject-before", of+": when the entry is (still) missing never [return <nil error>]", fn.Pos(), "", "no nil test of the looked-up/created node that leaves with an error") {
-			c.Between_webdav(of, c.Edge(f+"#0 != nil"), RetOKAny(), Instrs_webdav("nil test of the node", tests...))
+			c.WdBetween(of, c.Edge(f+"#0 != nil"), WdRetOKAny(), WdInstrs("nil test of the node", tests...))
 		}
 		trunc := []string{fmt.Sprintf("($2&%d) != 0", oWr), fmt.Sprintf("($2&%d) != 0", oTrunc)}
 		c.Guard(of, Stores(data), trunc...)
@@ -181,30 +181,30 @@ func c44(c *Ctx) {
 	// ---- Stat
 	st := F + "Stat"
 	if f := c44Find(c, st, 1); f != "" {
-		c.Reject(st, RetOKAny(), f+"#2 != nil")
-		c.GuardAny_webdav(st, RetOKAny(), []string{f + "#0 == nil"}, []string{f + "#0.children[" + f + "#1]#1"})
+		c.Reject(st, WdRetOKAny(), f+"#2 != nil")
+		c.WdGuardAny(st, WdRetOKAny(), []string{f + "#0 == nil"}, []string{f + "#0.children[" + f + "#1]#1"})
 	}
 
 	// ---- find / walk
-	c.Guard(find+"$1", FreeVarStores(), "$2", `$1 != ""`)
-	c.Count(find+"$1", FreeVarStores(), 2, 2)
-	c.Has(find+"$1", FreeVarStores().StoredIs("$0"))
-	c.Has(find+"$1", FreeVarStores().StoredIs("$1"))
+	c.Guard(find+"$1", WdFreeVarStores(), "$2", `$1 != ""`)
+	c.Count(find+"$1", WdFreeVarStores(), 2, 2)
+	c.Has(find+"$1", WdFreeVarStores().StoredIs("$0"))
+	c.Has(find+"$1", WdFreeVarStores().StoredIs("$1"))
 	c.Has(find, Calls(F+"walk").ArgIs(2, "$1"))
-	c.RetAll(find, 2, "walk's error", IsCallTo(F+"walk"))
+	c.WdRetAll(find, 2, "walk's error", IsCallTo(F+"walk"))
 	wk := F + "walk"
 	c.Has(wk, Calls("webdav.slashClean").ArgIs(0, "$1"))
 	c.Before(wk, Calls("webdav.slashClean"), Calls("strings.IndexRune"))
 	c.ArgFrom(wk, Calls("strings.IndexRune"), 0, "slashClean", IsCallTo("webdav.slashClean"))
-	c.GuardMatch(wk, RetOKAny(), "final (no further '/')", func(a Atom) bool {
-		ts := AtomTerms(a)
+	c.WdGuardMatch(wk, WdRetOKAny(), "final (no further '/')", func(a Atom) bool {
+		ts := WdAtomTerms(a)
 		return a.Kind == LE && len(ts) == 1 && strings.HasPrefix(ts[0], "IndexRune(") && a.L.Coef[ts[0]] == 1 && a.L.K == 1
 	})
 	if fn := c.MustFn(wk); fn != nil {
 		var cb *ssa.Call
 		for _, b := range fn.Blocks {
 			for _, in := range b.Instrs {
-				if call, ok := in.(*ssa.Call); ok && IsParam(fn, 2)(call.Call.Value) {
+				if call, ok := in.(*ssa.Call); ok && WdIsParam(fn, 2)(call.Call.Value) {
 					cb = call
 				}
 			}
@@ -212,8 +212,8 @@ func c44(c *Ctx) {
 		if cb == nil {
 			c.Undecided("anchor", wk+": callback call", "not found")
 		} else {
-			c.Reject(wk, RetOKAny(), Term(cb)+" != nil")
-			c.Before(wk, Instrs_webdav("callback call", cb), RetOKAny())
+			c.Reject(wk, WdRetOKAny(), Term(cb)+" != nil")
+			c.Before(wk, WdInstrs("callback call", cb), WdRetOKAny())
 		}
 		// missing child / non-directory child stop the walk
 		isNil := func(v ssa.Value) bool { k, ok := v.(*ssa.Const); return ok && k.Value == nil }
@@ -222,15 +222,15 @@ func c44(c *Ctx) {
 			return ok && strings.HasSuffix(Term(lk.X), ".children")
 		}
 		ok := false
-		for _, ifi := range CmpBranches(fn, isChild, isNil) {
-			eqb, _ := EqEdge(ifi)
+		for _, ifi := range WdCmpBranches(fn, isChild, isNil) {
+			eqb, _ := WdEqEdge(ifi)
 			stop := true
-			for _, r := range RetOKAny().F(c.P, fn) {
-				if BlockReaches(eqb, r) {
+			for _, r := range WdRetOKAny().F(c.P, fn) {
+				if WdBlockReaches(eqb, r) {
 					stop = false
 				}
 			}
-			if cb != nil && BlockReaches(eqb, cb) {
+			if cb != nil && WdBlockReaches(eqb, cb) {
 				stop = false
 			}
 			if stop {
@@ -247,12 +247,12 @@ func c44(c *Ctx) {
 			stop := false
 			for _, e := range c.Edge(a.String()).F(c.P, fn) {
 				stop = true
-				for _, r := range RetOKAny().F(c.P, fn) {
-					if BlockReaches(e.Block(), r) {
+				for _, r := range WdRetOKAny().F(c.P, fn) {
+					if WdBlockReaches(e.Block(), r) {
 						stop = false
 					}
 				}
-				if cb != nil && BlockReaches(e.Block(), cb) {
+				if cb != nil && WdBlockReaches(e.Block(), cb) {
 					stop = false
 				}
 			}
@@ -265,23 +265,23 @@ func c44(c *Ctx) {
 
 	// ---- memFile
 	const MF = "(*webdav.memFile)."
-	c.Reject(MF+"Read", Union(RetOKAny(), Stores(pos)), "IsDir($r.n.mode)")
-	c.Reject(MF+"Read", Union(RetOKAny(), Stores(pos)), "$r.pos >= len($r.n.data)")
-	c.GuardAny_webdav(MF+"Read", RetIs(1, "io.EOF"), []string{"$r.pos >= len($r.n.data)"})
+	c.Reject(MF+"Read", Union(WdRetOKAny(), Stores(pos)), "IsDir($r.n.mode)")
+	c.Reject(MF+"Read", Union(WdRetOKAny(), Stores(pos)), "$r.pos >= len($r.n.data)")
+	c.WdGuardAny(MF+"Read", WdRetIs(1, "io.EOF"), []string{"$r.pos >= len($r.n.data)"})
 	c.Count(MF+"Read", Stores(pos).StoredIs("($r.pos+copy($0,$r.n.data[$r.pos:]))"), 1, 1)
-	c.Count(MF+"Read", RetIs(0, "copy($0,$r.n.data[$r.pos:])"), 1, 1)
-	c.Reject(MF+"Write", Union(RetOKAny(), Stores(pos), Stores(data)), "IsDir($r.n.mode)")
-	c.Count(MF+"Write", RetOKAny().Where("returns len(p)", func(in ssa.Instruction) bool {
-		v := RetValue(in.(*ssa.Return), 0)
+	c.Count(MF+"Read", WdRetIs(0, "copy($0,$r.n.data[$r.pos:])"), 1, 1)
+	c.Reject(MF+"Write", Union(WdRetOKAny(), Stores(pos), Stores(data)), "IsDir($r.n.mode)")
+	c.Count(MF+"Write", WdRetOKAny().Where("returns len(p)", func(in ssa.Instruction) bool {
+		v := WdRetValue(in.(*ssa.Return), 0)
 		return v != nil && Term(v) == "len($0)"
 	}), 1, 1)
-	c.Count(MF+"Write", RetOKAny(), 1, 1)
-	c.Before(MF+"Write", Stores("webdav.memFSNode.modTime"), RetOKAny())
-	c.Reject(MF+"Readdir", Union(RetOKAny(), Stores(pos)), "!IsDir($r.n.mode)")
-	c.GuardSelf(MF+"Seek", Stores(pos), "stored position >= 0", func(in ssa.Instruction) []string {
+	c.Count(MF+"Write", WdRetOKAny(), 1, 1)
+	c.Before(MF+"Write", Stores("webdav.memFSNode.modTime"), WdRetOKAny())
+	c.Reject(MF+"Readdir", Union(WdRetOKAny(), Stores(pos)), "!IsDir($r.n.mode)")
+	c.WdGuardSelf(MF+"Seek", Stores(pos), "stored position >= 0", func(in ssa.Instruction) []string {
 		return []string{Term(in.(*ssa.Store).Val) + " >= 0"}
 	})
-	c.Before(MF+"Seek", Stores(pos), RetOKAny())
+	c.Before(MF+"Seek", Stores(pos), WdRetOKAny())
 }
 
 // c44LockObjOf renders the mutex (…​.mu) of the node whose field the selected store writes.
@@ -300,4 +300,4 @@ func c44LockObjOf(c *Ctx, fnName string, sel Sel) string {
 	return "?"
 }
 
-func isPhiValue(v ssa.Value) bool { _, ok := v.(*ssa.Phi); return ok }
+func c44IsPhi(v ssa.Value) bool { _, ok := v.(*ssa.Phi); return ok }
